@@ -992,6 +992,87 @@ pub fn mating_material() -> BoxedStrategy<String> {
         .boxed()
 }
 
+/// Perpetual-check geometry: a king behind its own g-pawn is checked by a queen shuttling between
+/// e1 and h4 (every reply is forced), while the checked side is far ahead in material. Mirrored
+/// over the files, rotated to the other colour, started at any of the four plies of the cycle.
+pub fn perpetual_theme() -> BoxedStrategy<String> {
+    (
+        prop::collection::vec((0u8..4, 3u8..7, prop_oneof![Just(P::Rook), Just(P::Bishop), Just(P::Knight), Just(P::Pawn), Just(P::Queen)]), 0..4),
+        0u8..6,
+        any::<bool>(),
+        any::<bool>(),
+        0u8..4,
+    )
+        .prop_map(|(extras, bk_sel, mirror, swap, phase)| {
+            let make = |extras: &[(u8, u8, P)]| {
+                let mut p = Pos::empty();
+                p.sq[sq_of(6, 0).unwrap() as usize] = Some((P::King, Side::White));
+                p.sq[sq_of(6, 1).unwrap() as usize] = Some((P::Pawn, Side::White));
+                p.sq[sq_of(7, 3).unwrap() as usize] = Some((P::Queen, Side::Black));
+                let bk = [sq_of(0, 7), sq_of(1, 7), sq_of(2, 7), sq_of(0, 6), sq_of(1, 6), sq_of(2, 6)][bk_sel as usize].unwrap();
+                p.sq[bk as usize] = Some((P::King, Side::Black));
+                for (f, r, k) in extras {
+                    let s = sq_of(*f as i8, *r as i8).unwrap() as usize;
+                    if p.sq[s].is_none() {
+                        p.sq[s] = Some((*k, Side::White));
+                    }
+                }
+                p.side = Side::Black;
+                p.rights = 0;
+                p.ep = None;
+                p.half = 0;
+                p
+            };
+            let mut p = make(&extras);
+            // the extras must leave the geometry intact: black is not in check, and after Qe1+
+            // white has exactly one reply
+            let ok = |p: &Pos| {
+                p.consistent().is_ok() && !p.in_check(Side::Black) && {
+                    let q = p.legal_moves().into_iter().find(|m| m.from == sq_of(7, 3).unwrap() && m.to == sq_of(4, 0).unwrap());
+                    match q {
+                        Some(q) => {
+                            let p1 = p.make(&q);
+                            p1.in_check(Side::White) && p1.legal_moves().len() == 1
+                        }
+                        None => false,
+                    }
+                }
+            };
+            if !ok(&p) {
+                p = make(&[(0, 6, P::Rook), (1, 5, P::Rook)]);
+                if !ok(&p) {
+                    p = make(&[]);
+                }
+            }
+            // start somewhere on the cycle
+            for _ in 0..phase {
+                let legal = p.legal_moves();
+                let next = legal.iter().find(|m| {
+                    let n = p.make(m);
+                    (p.side == Side::Black && n.in_check(Side::White) && p.sq[m.from as usize] == Some((P::Queen, Side::Black)) && m.cap.is_none()) || (p.side == Side::White && legal.len() == 1)
+                });
+                match next {
+                    Some(m) => p = p.make(m),
+                    None => break,
+                }
+            }
+            p.half = 0;
+            p.ply = 0;
+            if mirror {
+                let mut n = p.clone();
+                for s in 0..64u8 {
+                    n.sq[sq_of(7 - file_of(s), rank_of(s)).unwrap() as usize] = p.sq[s as usize];
+                }
+                p = n;
+            }
+            if swap {
+                p = p.rotated_swapped();
+            }
+            p.fen()
+        })
+        .boxed()
+}
+
 /// Positions that are checkmate or stalemate far more often than any placement: a cage or
 /// few-piece set-up followed by a greedy walk that shrinks the opponent's options.
 pub fn terminal_biased() -> BoxedStrategy<String> {
